@@ -19,6 +19,15 @@ if ! cargo build --profile verif -q 2>/verif/harness/target/build-$ID.log; then
   tail -40 /verif/harness/target/build-$ID.log >&2
   exit 2
 fi
+# C10 also drives the real command line (quiv compile / quiv run as subprocesses): build it from
+# /repo's working tree into the harness's own target directory
+if [ "$ID" = "C10" ]; then
+  if ! cargo build -q --manifest-path /repo/Cargo.toml -p quiver-cli --target-dir /verif/harness/target/cli 2>/verif/harness/target/build-cli.log; then
+    echo "HARNESS: building quiver-cli failed (see below); not a property verdict" >&2
+    tail -40 /verif/harness/target/build-cli.log >&2
+    exit 2
+  fi
+fi
 # address-space cap: an allocation blow-up in the checked code ends the run (exit 2 / reported case) instead of the machine
 ulimit -v 41943040 2>/dev/null
 exec ./target/verif/qv check "$ID" --tier "$TIER"
